@@ -75,6 +75,11 @@ func mkRecord(top gts.Topology, n int) gts.Sequence {
 	ff = ff.Insert(gts.Feature{Key: "CDS", Loc: gts.Complemented{Location: gts.Range(25, 40)}, Props: gts.Props{{"gene", "b"}}})
 	ff = ff.Insert(gts.Feature{Key: "misc_feature", Loc: gts.Range(35, 50), Props: gts.Props{{"note", "m"}}})
 	ff = ff.Insert(gts.Feature{Key: "misc_feature", Loc: gts.Range(8, 12), Props: gts.Props{{"note", "nested"}}})
+	// same outer bounds as the gene, different structure
+	ff = ff.Insert(gts.Feature{Key: "mRNA", Loc: gts.Join(gts.Range(3, 9), gts.Range(14, 20)), Props: gts.Props{{"gene", "a"}}})
+	// two regions with the same 5' end
+	ff = ff.Insert(gts.Feature{Key: "regulatory", Loc: gts.Range(43, 52), Props: gts.Props{{"note", "r1"}}})
+	ff = ff.Insert(gts.Feature{Key: "regulatory", Loc: gts.Range(43, 47), Props: gts.Props{{"note", "r2"}}})
 	p := make([]byte, n)
 	for i := range p {
 		p[i] = "acgtacggtcatgcatgacc"[(i*7+i/5)%20]
@@ -117,7 +122,7 @@ func runC15(o *Out) {
 	}
 	n := 60
 	locators := []string{"10", "10..20", "complement(12..18)", "CDS", "gene", "misc_feature", "exon", "CDS@^", "CDS@^-2..$+2", "@^+3",
-		"gene@$", "^+5..^+10", "misc_feature@^..^+3", "CDS/gene=b", "/gene=a", "$-10..$", "1", "60"}
+		"gene@$", "^+5..^+10", "misc_feature@^..^+3", "CDS/gene=b", "/gene=a", "$-10..$", "1", "60", "regulatory", "mRNA", "regulatory@^"}
 	guest := gts.New("guest", gts.FeatureSlice{{Key: "gf", Loc: gts.Range(0, 4), Props: gts.Props{{"note", "g"}}}}, []byte("NNNN"))
 	guestFa := []byte(">guest\nNNNN\n")
 	for _, top := range []gts.Topology{gts.Linear, gts.Circular} {
